@@ -22,6 +22,8 @@ impl Prop for C16 {
         let mut rng = Rng::new(seed ^ 0xC16);
         let mut v: Vec<Case> = (0..(if th { 40 } else { 10 })).map(|i| case(&[("k", (1 + i % (if th { 8 } else { 4 })).to_string()), ("seed", rng.next().to_string())])).collect();
         // histories in which a password is a later one plus white space / a line ending (KESTREL_PASSWORD is taken verbatim)
+        // histories that start from a GIVEN key (any 32 bytes are a private key): all zero, all ones, a small scalar, mostly zeros
+        for g in ["zeros", "ff", "one", "sparse"] { v.push(case(&[("k", "2".into()), ("given", g.into()), ("seed", rng.next().to_string())])); }
         for h in ["lf", "crlf", "space", "only-lf"] { v.push(case(&[("k", "3".into()), ("hist", h.into()), ("seed", rng.next().to_string())])); }
         v
     }
@@ -37,6 +39,26 @@ impl Prop for C16 {
         match get(c, "hist") { "lf" => pws = vec!["hunter2\n".into(), "hunter2".into(), "hunter2\n\n".into(), "hunter2\n".into()], "crlf" => pws = vec!["пароль\r\n".into(), "пароль".into(), "пароль\r".into(), "пароль".into()],
             "space" => pws = vec![" pw ".into(), "pw".into(), "pw ".into(), " pw".into()], "only-lf" => pws = vec!["\n".into(), "".into(), "\r\n".into(), "".into()], _ => {} }
         o.nontrivial = Some(format!("{}/{}{}", k, get(c, "seed"), get(c, "hist"))); o.tags.push(format!("changes={}", k)); if !get(c, "hist").is_empty() { o.tags.push(format!("history {}", get(c, "hist"))); }
+        if !get(c, "given").is_empty() {
+            let raw: Vec<u8> = match get(c, "given") { "zeros" => vec![0u8; 32], "ff" => vec![0xff; 32], "one" => { let mut v = vec![0u8; 32]; v[0] = 1; v } _ => { let mut v = vec![0u8; 32]; v[19] = 0x5a; v } };
+            let salt: [u8; 32] = rng.bytes(32).try_into().unwrap();
+            let pubk = crate::props::c01::pub_of(&raw);
+            let want = format!("PublicKey = {}", crate::keyring::Keyring::encode_public_key(&crate::imp::pk(&pubk)).as_str());
+            let mut cur = crate::keyring::Keyring::lock_private_key(&crate::imp::sk(&raw), pws[0].as_bytes(), salt).as_str().to_string();
+            o.nontrivial = Some(format!("given/{}", get(c, "given"))); o.tags.push(format!("given key {}", get(c, "given")));
+            for i in 0..k {
+                let x = run_kestrel(&World { files: vec![], env: vec![("KESTREL_PASSWORD".into(), pws[i].clone())], stdin: vec![] }, &sv(&["key", "extract-pub", &cur, "--env-pass"])); o.validated += 1;
+                if x.exit != Some(0) || String::from_utf8_lossy(&x.stdout).trim() != want { o.oracle_fail = Some(("extract-pub-prints-public-key-of-private-key".into(), format!("given private key {} locked under {:?}: after {} changes `kestrel key extract-pub` printed {:?} (exit {:?}: {}), the public key of that private key is {:?}", hex(&raw), pws[i], i, String::from_utf8_lossy(&x.stdout).trim(), x.exit, x.stderr.trim(), want))); return o; }
+                let ch = run_kestrel(&World { files: vec![], env: vec![("KESTREL_PASSWORD".into(), pws[i].clone()), ("KESTREL_NEW_PASSWORD".into(), pws[i + 1].clone())], stdin: vec![] }, &sv(&["key", "change-pass", &cur, "--env-pass"]));
+                let line = String::from_utf8_lossy(&ch.stdout).trim().to_string();
+                if ch.exit != Some(0) || !line.starts_with("PrivateKey = ") { o.oracle_fail = Some(("change-pass-succeeds".into(), format!("given private key {}: change {}: exit {:?} {}", hex(&raw), i, ch.exit, ch.stderr.trim()))); return o; }
+                cur = line[13..].to_string();
+                let mu = m.ask(&format!("unlock {} {}", hex(cur.as_bytes()), hexd(pws[i + 1].as_bytes()))); o.validated += 1;
+                if mu != format!("ok {}", hex(&raw)) { o.oracle_fail = Some(("newest-string-unlocks-to-original-key".into(), format!("given private key {}: after change {} the new string unlocks (reference model) to {}", hex(&raw), i + 1, mu))); return o; }
+            }
+            o.impl_obs = format!("given key {}: {} changes, public key constant", get(c, "given"), k); o.model_obs = "same".into();
+            return o;
+        }
         // generate
         let g = run_kestrel(&World { files: vec![], env: vec![("KESTREL_PASSWORD".into(), pws[0].clone())], stdin: b"subject\n".to_vec() }, &sv(&["key", "generate", "-o", "ring.txt", "--env-pass"]));
         let Some(ring) = g.file("ring.txt").cloned() else { o.oracle_fail = Some(("generate-succeeds".into(), g.stderr)); return o; };
@@ -64,6 +86,10 @@ impl Prop for C16 {
             let wrong = String::from_utf8_lossy(&other_password(old.as_bytes(), "other", &mut rng)).to_string();
             let bad = run_kestrel(&World { files: vec![], env: vec![("KESTREL_PASSWORD".into(), wrong), ("KESTREL_NEW_PASSWORD".into(), new.clone())], stdin: vec![] }, &sv(&["key", "change-pass", &cur, "--env-pass"]));
             if bad.exit != Some(1) || !bad.stdout.is_empty() { o.oracle_fail = Some(("change-needs-current-password".into(), format!("change-pass with a wrong old password: exit {:?}, printed {} bytes", bad.exit, bad.stdout.len()))); return o; }
+            // … also when the new password is that same wrong password ("changing" to the password one typed proves nothing)
+            let wrong2 = String::from_utf8_lossy(&other_password(old.as_bytes(), "other", &mut rng)).to_string();
+            let bad2 = run_kestrel(&World { files: vec![], env: vec![("KESTREL_PASSWORD".into(), wrong2.clone()), ("KESTREL_NEW_PASSWORD".into(), wrong2.clone())], stdin: vec![] }, &sv(&["key", "change-pass", &cur, "--env-pass"]));
+            if bad2.exit != Some(1) || !bad2.stdout.is_empty() { o.oracle_fail = Some(("change-needs-current-password".into(), format!("change-pass with a wrong old password that is also given as the new password ({:?}): exit {:?}, printed {} bytes", wrong2, bad2.exit, bad2.stdout.len()))); return o; }
             let ch = run_kestrel(&World { files: vec![], env: vec![("KESTREL_PASSWORD".into(), old.clone()), ("KESTREL_NEW_PASSWORD".into(), new.clone())], stdin: vec![] }, &sv(&["key", "change-pass", &cur, "--env-pass"]));
             outputs.push(ch.stdout.clone()); outputs.push(ch.stderr.clone().into_bytes());
             let line = String::from_utf8_lossy(&ch.stdout).trim().to_string();
